@@ -32,8 +32,8 @@ func init() {
 	Register(&Rule{
 		ID:    "R-POOL",
 		Doc:   "typestate per sync.Pool object x := P.Get(): after P.Put(x) no use of x or of memory loaded from it; nothing derived from x's memory flows to a return (copy-out); a released tokenizer stack is dropped from its owner",
-		Props: []string{"C09", "C10", "C17", "C03", "C06", "C01", "C14"},
-		Min:   map[string]int{"C09": 7, "C10": 2, "C17": 1, "C03": 1, "C06": 5, "C01": 5, "C14": 5},
+		Props: []string{"C09", "C10", "C17", "C03", "C06", "C01", "C14", "C12"},
+		Min:   map[string]int{"C09": 7, "C10": 2, "C17": 1, "C03": 1, "C06": 5, "C01": 5, "C14": 5, "C12": 1},
 		Run:   runPool,
 	})
 	Register(&Rule{
@@ -755,7 +755,7 @@ func runPool(c *core.Ctx) []core.Obligation {
 			props = []string{"C09", "C17"}
 		}
 		if strings.HasPrefix(shortName(fn), "proto.") {
-			props = []string{"C09", "C03"}
+			props = []string{"C09", "C03", "C12"}
 		}
 		// derived-from-x within fn
 		derivedFrom := func(x ssa.Value) map[ssa.Value]bool {
@@ -928,9 +928,13 @@ func runPool(c *core.Ctx) []core.Obligation {
 							if mi, ok := parg.(*ssa.MakeInterface); ok {
 								parg = mi.X
 							}
-							if (fa.X == parg || isSameObject(fa.X, parg) || isSameObject(parg, fa.X)) && instrDominates(st, p.at) {
-								site.clean = true
+							if fa.X == parg || isSameObject(fa.X, parg) || isSameObject(parg, fa.X) {
+								// a reset anywhere in the function shows the object needs one;
+								// it only counts for this Put if it happens on every path to it
 								anyClean = st
+								if instrDominates(st, p.at) {
+									site.clean = true
+								}
 							}
 							continue
 						}
@@ -947,9 +951,11 @@ func runPool(c *core.Ctx) []core.Obligation {
 						if mi, ok := parg.(*ssa.MakeInterface); ok {
 							parg = mi.X
 						}
-						if call.Common().Args[1] == parg && instrDominates(call, p.at) {
-							site.clean = true
+						if call.Common().Args[1] == parg {
 							anyClean = call
+							if instrDominates(call, p.at) {
+								site.clean = true
+							}
 						}
 					}
 				}
@@ -966,7 +972,7 @@ func runPool(c *core.Ctx) []core.Obligation {
 					if site.clean {
 						b.addP(props, core.Discharged, key, c.InstrPos(site.at), "the pooled object is reset to its zero value before this Put")
 					} else {
-						b.addP(props, core.Violation, key, c.InstrPos(site.at), fmt.Sprintf("%s returns the scratch object to the pool at %s without the reset performed before its other Put (%s): the next caller decodes into stale field values", shortName(fn), c.InstrPos(site.at), c.InstrPos(anyClean)))
+						b.addP(props, core.Violation, key, c.InstrPos(site.at), fmt.Sprintf("%s returns the scratch object to the pool at %s without the reset (%s) having happened on every path to it: the next caller starts from stale contents", shortName(fn), c.InstrPos(site.at), c.InstrPos(anyClean)))
 					}
 				}
 			}
